@@ -50,12 +50,13 @@ var scenarios = map[string]func(*child){
 	"cli-first":       scCliFirst,
 	"sse":             scSSE,
 	"sse-first":       scSSEFirst,
+	"sse-reendpoint":  scSSEReendpoint,
 	"srv-stdio":       scSrvStdio,
 	"cli-stdio":       scCliStdio,
 	"cli-stdio-first": scCliStdioFirst,
 }
 
-var scenarioOrder = []string{"srv-streamable", "srv-resume", "cli-streamable", "cli-first", "sse", "sse-first", "srv-stdio", "cli-stdio", "cli-stdio-first"}
+var scenarioOrder = []string{"srv-streamable", "srv-resume", "cli-streamable", "cli-first", "sse", "sse-first", "sse-reendpoint", "srv-stdio", "cli-stdio", "cli-stdio-first"}
 
 func childMain(name string) {
 	if name == "stdio-server" {
@@ -757,6 +758,71 @@ func scSSEFirst(ch *child) {
 	}
 }
 
+// repeatEndpoint wraps the legacy SSE server so that the stream repeats its endpoint event after every message
+// frame (the library's client tolerates further endpoint events). The server serialises its writes on the stream,
+// so Write is never called concurrently.
+type repeatEndpoint struct{ h http.Handler }
+
+type repeatWriter struct {
+	http.ResponseWriter
+	endpoint []byte
+}
+
+func (w *repeatWriter) Write(p []byte) (int, error) {
+	n, err := w.ResponseWriter.Write(p)
+	if err != nil {
+		return n, err
+	}
+	if bytes.HasPrefix(p, []byte("event: endpoint")) {
+		w.endpoint = append([]byte{}, p...)
+	} else if w.endpoint != nil && bytes.HasPrefix(p, []byte("event: message")) && bytes.HasSuffix(p, []byte("\n\n")) {
+		w.ResponseWriter.Write(w.endpoint)
+	}
+	return n, err
+}
+
+func (w *repeatWriter) Flush() {
+	if f, ok := w.ResponseWriter.(http.Flusher); ok {
+		f.Flush()
+	}
+}
+
+func (w *repeatWriter) Unwrap() http.ResponseWriter { return w.ResponseWriter }
+
+func (r repeatEndpoint) ServeHTTP(w http.ResponseWriter, req *http.Request) {
+	if req.Method == http.MethodGet {
+		w = &repeatWriter{ResponseWriter: w}
+	}
+	r.h.ServeHTTP(w, req)
+}
+
+// scSSEReendpoint: one legacy SSE client used from several goroutines while its peer repeats the endpoint event.
+func scSSEReendpoint(ch *child) {
+	s := mcp.NewSSEServer("races-sse", "1.0", mcp.WithSSEServerLogger(hk.QuietLogger{}), mcp.WithKeepAlive(false))
+	registerBase(regSSE(s))
+	ts := httptest.NewUnstartedServer(repeatEndpoint{s})
+	ts.Config.ErrorLog = hk.QuietStdLog()
+	ts.Start()
+	defer func() { ts.CloseClientConnections(); ts.Close() }()
+	ctx := context.Background()
+	c := newSSEClient(ts.URL + "/sse")
+	_, err := c.Initialize(ctx, &mcp.InitializeRequest{})
+	ch.did(err)
+	var wg sync.WaitGroup
+	for g := 0; g < 3; g++ {
+		g := g
+		wg.Add(1)
+		go func() {
+			defer wg.Done()
+			for i := 0; i < 8*ch.scale; i++ {
+				ch.did(callWork(ctx, c, fmt.Sprintf("re%d-%d", g, i)))
+			}
+		}()
+	}
+	wg.Wait()
+	c.Close()
+}
+
 // ---------------------------------------------------------------------------------------------------------------
 // stdio
 
@@ -929,6 +995,37 @@ func scCliStdioFirst(ch *child) {
 				_ = c.GetProcessID()
 			}()
 		}
+		// process queries while the first request may still be starting the process
+		wg.Add(1)
+		go func() {
+			defer wg.Done()
+			for i := 0; i < 20; i++ {
+				_ = c.GetProcessID()
+				_ = c.IsProcessRunning()
+				time.Sleep(time.Millisecond)
+			}
+		}()
+		wg.Wait()
+		c.Close()
+	}
+	// Close while the first request is in flight
+	for round := 0; round < 3*ch.scale; round++ {
+		c := newStdioClient()
+		var wg sync.WaitGroup
+		wg.Add(2)
+		go func() {
+			defer wg.Done()
+			defer func() { recover() }()
+			c2, cancel := context.WithTimeout(ctx, 5*time.Second)
+			defer cancel()
+			_, err := c.Initialize(c2, &mcp.InitializeRequest{})
+			ch.did(err)
+		}()
+		go func() {
+			defer wg.Done()
+			time.Sleep(time.Duration(round%3) * time.Millisecond)
+			c.Close()
+		}()
 		wg.Wait()
 		c.Close()
 	}
